@@ -1594,3 +1594,238 @@ def rule_bit_reads(ctx, cfg, r):
     if checked < 2:
         r.fail(f.name, "bit-read-sites", "%d single-bit reads examined in decode_huffman_code (reference tree: base + inductive)" % checked)
     # tree_lookup: the fast path has >= 15 bits by its caller's contract; its walk starts at FAST_LOOKUP_BITS
+
+
+# ---------------------------------------------------------------------------------------------- R03.3 / R04.6 code-length run accounting
+def _uncast(t):
+    while t and t[0] == "cast":
+        t = t[1]
+    return t
+
+
+def _flat_sum(t):
+    t = _uncast(t)
+    if t and t[0] == "bin" and t[1] == "Add":
+        return _flat_sum(t[2]) + _flat_sum(t[3])
+    return [t]
+
+
+def _run_parts(parts):
+    """classify the addends of a counter/range expression: (n counter loads, n read_bits results, n base-table lookups, others)"""
+    cnt = rb = base = 0
+    other = []
+    for p in parts:
+        if p[0] == "load" and paths.place_is_field(p[1], "counter"):
+            cnt += 1
+        elif p[0] == "unknown" and str(p[1]).startswith("arg:read_bits"):
+            rb += 1
+        elif p[0] == "pure" and p[1] == "index" and p[2][0][0] == "constarr":
+            base += 1
+        else:
+            other.append(p)
+    return cnt, rb, base, other
+
+
+def _unclamp(t):
+    """`min(A, B)` with B a function of the declared table sizes only -> A (equal to A on every valid stream)"""
+    u = _uncast(t)
+    if u and u[0] == "pure" and u[1] == "min" and len(u[2]) == 2:
+        for a, b in ((u[2][0], u[2][1]), (u[2][1], u[2][0])):
+            if paths.term_contains(b, lambda y: y[0] == "fld" and y[2] == "table_sizes") and \
+                    not paths.term_contains(b, lambda y: y[0] == "fld" and y[2] == "counter"):
+                return a
+    return t
+
+
+def rule_repeat_run(ctx, cfg, r, exact=True):
+    """Code-length symbols are counted exactly: a literal length advances the counter by one, a repeat symbol (16/17/18) by the
+    announced run (extra bits + base) with nothing clamped, and the filled range is that same run.  Necessary for the
+    `counter != HLIT + HDIST` test to reject a run that overshoots the declared number of code lengths."""
+    M = machine(ctx, cfg)
+    fn = M.fn.name
+    n = 0
+    for x in M.arm_rows("ReadExtraBitsCodeSize"):
+        if x.kind != "jump":
+            continue
+        n += 1
+        cv = None
+        for k, v in x.store.items():
+            if isinstance(k, tuple) and k and k[0] == "fld" and k[2] == "counter":
+                cv = v
+        what = "ReadExtraBitsCodeSize/advance"
+        if cv is None:
+            r.fail(fn, what, "a repeat code leaves the code-length counter unchanged", where=first_span(x), path=row_path(x))
+            continue
+        if not exact:
+            cv = _unclamp(cv)
+        cnt, rb, base, other = _run_parts(_flat_sum(cv))
+        if (cnt, rb, base) == (1, 1, 1) and not other:
+            r.ok(fn, what, "counter' = counter + (extra bits read + base[sym-16])")
+        else:
+            r.fail(fn, what, "after a repeat code the counter becomes %s, not counter + (bits read + base count): a run that "
+                   "overshoots HLIT+HDIST would no longer be seen by the code-size-sum test" % tstr(cv), where=first_span(x), path=row_path(x))
+        # fill range
+        im = [e for e in x.effects if e[0] == "call" and "index_mut" in e[1]]
+        fl = [e for e in x.effects if e[0] == "call" and e[1].endswith("::fill")]
+        what = "ReadExtraBitsCodeSize/fill"
+        okf = False
+        why = "no fill of len_codes found"
+        if len(im) == 1 and len(fl) == 1 and im[0][2][1][0] == "agg":
+            ops = im[0][2][1][4]
+            def unmask(t):
+                t = _uncast(t)
+                if t[0] == "bin" and t[1] == "BitAnd" and is_const(t[3]):
+                    return t[2], const_val(t[3])
+                return t, None
+            lo, mlo = unmask(ops[0])
+            hi, mhi = unmask(ops[1])
+            if not exact:
+                hi = _unclamp(hi)
+            clo = _run_parts(_flat_sum(lo))
+            chi = _run_parts(_flat_sum(hi))
+            okf = clo[:3] == (1, 0, 0) and not clo[3] and chi[:3] == (1, 1, 1) and not chi[3] and mlo == mhi
+            why = "range %s" % tstr(im[0][2][1])
+            # value filled: previous length for 16, zero otherwise
+            val = fl[0][2][1]
+            d16 = None
+            for t in cmp_operands(x):
+                if t[0] == "load" and paths.place_is_field(t[1], "dist"):
+                    s = vs(x, t)
+                    d16 = True if s.single() == 16 else (False if not s.contains(16) else None)
+            if is_const(val) and const_val(val) == 0:
+                okf = okf and d16 is False
+                why += ", filled with 0 while symbol %s" % ("≠ 16" if d16 is False else "may be 16")
+            else:
+                prev = any(st[0] == "bin" and st[1] == "Sub" and is_const(st[3]) and const_val(st[3]) == 1 and
+                           paths.term_contains(st[2], lambda y: y[0] == "fld" and y[2] == "counter") for st in paths.subterms(val)) and \
+                    paths.term_contains(val, lambda y: y[0] == "fld" and y[2] == "len_codes")
+                okf = okf and prev and d16 is True
+                why += ", filled with %s while symbol %s" % (tstr(val), "= 16" if d16 else "not known to be 16")
+        if okf:
+            r.ok(fn, what, why)
+        else:
+            r.fail(fn, what, "repeat-code expansion does not fill exactly [counter, counter + run) with the RFC value: " + why,
+                   where=first_span(x), path=row_path(x))
+    if n < 2:
+        r.fail(fn, "ReadExtraBitsCodeSize/rows", "expected the two expansion rows (repeat previous / repeat zero), found %d" % n)
+    # literal code length: one entry, counter + 1
+    m = 0
+    for x in M.arm_rows("ReadLitlenDistTablesCodeSize"):
+        if x.outcome[0] != "backedge" and not (x.kind == "jump" and x.target == "ReadLitlenDistTablesCodeSize"):
+            continue
+        cv = None
+        for k, v in x.store.items():
+            if isinstance(k, tuple) and k and k[0] == "fld" and k[2] == "counter":
+                cv = v
+        if cv is None:
+            continue
+        m += 1
+        parts = _flat_sum(cv)
+        consts = [const_val(p) for p in parts if is_const(p)]
+        cnt, rb, base, other = _run_parts([p for p in parts if not is_const(p)])
+        if cnt == 1 and consts == [1] and not rb and not base and not other:
+            r.ok(fn, "ReadLitlenDistTablesCodeSize/advance", "a literal code length advances the counter by one")
+        else:
+            r.fail(fn, "ReadLitlenDistTablesCodeSize/advance", "a literal code length sets the counter to %s" % tstr(cv),
+                   where=first_span(x), path=row_path(x))
+    if m < 1:
+        r.fail(fn, "ReadLitlenDistTablesCodeSize/rows", "no row storing a literal code length and advancing the counter was found")
+
+
+# ---------------------------------------------------------------------------------------------- R07.4 clean suspension exits
+SUSPEND = ("NeedsMoreInput", "HasMoreOutput", "FailedCannotMakeProgress")
+READERS = ("inflate::core::read_bits", "inflate::core::decode_huffman_code", "inflate::core::read_byte",
+           "inflate::core::pad_to_bytes", "inflate::core::fill_bit_buffer")
+
+
+def _bitreader_loc(loc):
+    of, field = loc
+    return (of.endswith("inflate::core::LocalVars") and field in ("bit_buf", "num_bits")) or \
+        of.endswith("output_buffer::InputWrapper") or "{closure" in of
+
+
+def rule_clean_suspension(ctx, cfg, r):
+    """A state that suspends (returns NeedsMoreInput / HasMoreOutput / cannot-make-progress with `state` unchanged) is re-entered
+    from its top on the next call.  So on every path from the arm's entry to such an exit nothing persistent may have been
+    modified except the bit buffer and the input position (what the bit readers do): any other write would be applied twice."""
+    M = machine(ctx, cfg)
+    c = ctx.crate(cfg)
+    E = ctx.effects(cfg)
+    fn = M.fn.name
+    # (a) the readers themselves touch only the bit buffer and the input
+    for n in READERS:
+        fs = [f for f in c.fns.values() if f.name == n]
+        if not fs:
+            r.fail(n, "reader-present", "bit reader %s not found" % n)
+            continue
+        bad = sorted(l for l in E.sum[fs[0].id]["W"] if not _bitreader_loc(l))
+        if bad:
+            r.fail(n, "reader-effects", "bit reader writes %s besides the bit buffer and the input position" % bad)
+        else:
+            r.ok(n, "reader-effects", "writes only LocalVars.bit_buf / num_bits and the input slice")
+    # (b) suspension rows
+    byname = {f.name: f for f in c.fns.values() if f.kind != "promoted"}
+    n = 0
+    for arm in sorted(M.explicit):
+        for x in M.arm_rows(arm):
+            if x.kind != "end" or x.target not in SUSPEND:
+                continue
+            n += 1
+            bad = []
+            badpl = []
+            callbad = False
+            written = [e[1] for e in x.stores()] + [k for k in x.store if isinstance(k, tuple) and k and k[0] in ("fld", "idx", "cidx", "deref")]
+            for pl in written:
+                root = paths.root_of(pl)
+                inner = pl
+                skip = False
+                while inner and inner[0] in ("fld", "idx", "cidx", "deref"):
+                    if inner[0] == "fld" and _bitreader_loc((inner[3], inner[2])):
+                        skip = True
+                    inner = inner[1]
+                if skip:
+                    continue
+                if root[0] == "local" and not _persistent_root(M, root):
+                    continue
+                bad.append(pstr(pl))
+                badpl.append(pl)
+            for e in x.effects:
+                if e[0] != "call":
+                    continue
+                cf = byname.get(e[1])
+                s = E.sum.get(cf.id) if cf is not None else None
+                if s is None:
+                    continue
+                w = sorted(l for l in s["W"] if not _bitreader_loc(l))
+                if w:
+                    bad.append("%s (writes %s)" % (e[1], w[:3]))
+                    callbad = True
+            what = "%s/%s" % (arm, x.target)
+            if bad and not callbad:
+                # idempotent writes are harmless: neither a written value nor a branch condition of this path depends on the
+                # entry value of a written location, so re-running the state from its top writes the same values again
+                wr = {}
+                for pl in badpl:
+                    wr[pl] = x.store.get(pl)
+                def mentions_written(t):
+                    return t is None or paths.term_contains(t, lambda y: y[0] == "load" and any(y[1] == pl or paths.term_contains(y[1], lambda z: z == pl) for pl in wr))
+                if all(v is not None and not mentions_written(v) for v in wr.values()) and \
+                        not any(mentions_written(a) for a, _ in x.atoms):
+                    r.ok(fn, what, "writes before the suspension are idempotent (%s)" % ", ".join(sorted(set(bad))))
+                    continue
+            if bad:
+                r.fail(fn, what, "state %s can suspend with %s after modifying %s: the state is re-entered from its top on the next "
+                       "call, so the modification is applied again" % (arm, x.target, ", ".join(sorted(set(bad)))),
+                       where=first_span(x), path=row_path(x))
+            else:
+                r.ok(fn, what, "nothing but the bit buffer / input position is modified before the suspension")
+    if n < 30:
+        r.fail(fn, "suspension-rows", "only %d suspension rows found (reference tree: 44)" % n)
+
+
+def _persistent_root(M, root):
+    """locals of decompress_with_limit that outlive one dispatch iteration: the register file `l`, `out_buf`, `in_iter`, `state`"""
+    if len(root) < 3 or root[1] != 0:
+        return False
+    nm = M.fn.local_name(root[2])
+    return nm in ("l", "out_buf", "in_iter", "state", "status")
